@@ -140,3 +140,60 @@ Theorem third_write_blocks_repaired :
     result s = Some (OPanic PMulti) /\ stuck c s = true /\ clean s = false
     /\ redpc s = SendPend 3 [].
 Proof. exists (rep 20 (LMain BOut :: others)). vm_compute. repeat split; reflexivity. Qed.
+
+(* Seeded change C10-4: the caller's output branch prefers a received value over the stored cancel
+   error ("if ok { val = v } else if e := retErr.Load() ...").  cancel is not atomic: retErr.Set,
+   then drain(source) - held open by a generator that has not returned - then finish(); a reducer
+   Write inside that window still passes the guard.  The variant returns the value although a
+   cancel had entered before; the model of the real code returns the cancel error under the same
+   schedule, and Props.value_commit_not_cancelled proves it for every schedule. *)
+Definition out_result_c104 (s : state) (v : option Z) : outcome :=
+  match v with
+  | Some y => OVal y
+  | None => match reterr s with Some e => OErr e | None => ONoOutput end
+  end.
+Definition step_c104 (c : config) (s : state) (l : label) : option state :=
+  match l, mainpc s with
+  | LMain BOut, MSelect =>
+    if foreach c then step c s l
+    else match out_take s with
+         | Some (y, s1) => Some (set_main s1 (MDefer (out_result_c104 s (Some y))))
+         | None => step c s l
+         end
+  | _, _ => step c s l
+  end.
+Fixpoint run_c104 (c : config) (s : state) (sched : list label) : state :=
+  match sched with
+  | [] => s
+  | l :: tl => match step_c104 c s l with Some s1 => run_c104 c s1 tl | None => run_c104 c s tl end
+  end.
+
+Definition c104_cfg : config :=
+  mkCfg VFixed false 2%nat [USend 1; USend 2; USend 3]
+        (fun x => if x =? 1 then [UCancel (Some 5)] else if x =? 2 then [UWrite 20] else [])
+        [URecv; UWrite 777; URecvAll] false.
+(* two mappers spawned, the generator blocked in its third send; mapper 1 enters cancel and drains
+   the third item, the generator then stalls before returning (the window stays open) *)
+Definition c104_open : list label := rep 12 [LGen; LExec false] ++ rep 4 [LMap 0].
+(* inside the window: mapper 2 writes, the reducer receives the value and writes its result *)
+Definition c104_window : list label := rep 3 [LMap 1] ++ rep 4 [LRed] ++ [LMain BOut].
+Definition c104_rest : list label := rep 14 (LMain BOut :: LGen :: LMap 2 :: others).
+
+Theorem seed_c10_4_value_masks_cancel :
+  let s1 := run_c104 c104_cfg (init c104_cfg) c104_open in
+  let s2 := run_c104 c104_cfg s1 (c104_window ++ c104_rest) in
+  (g_cancels s1 = [ECancel 5] /\ reterr s1 = Some (ECancel 5) /\ finished s1 = false /\ mainpc s1 = MSelect)
+  /\ result s2 = Some (OVal 777) /\ clean s2 = true.
+Proof. vm_compute. repeat split; reflexivity. Qed.
+
+Example real_code_returns_cancel_error_in_that_window :
+  let s := run c104_cfg (init c104_cfg) (c104_open ++ c104_window ++ c104_rest) in
+  result s = Some (OErr (ECancel 5)) /\ clean s = true /\ g_cancels s = [ECancel 5].
+Proof. vm_compute. repeat split; reflexivity. Qed.
+
+(* Seeded changes C10-1 / C10-2 / C10-3 (the once around cancel removed or narrowed so that
+   retErr.Set runs on every cancel call): the observable failure is sync/atomic.Value panicking on a
+   second Store of a different concrete error type.  The model has no dynamic types, so there is no
+   pinned variant; the executor passes errors of three concrete types (cancelErr, *ptrErr,
+   *errors.errorString, wrapped errors, the context error of the ctx branch) to concurrent cancel
+   calls, and the real runtime panic is then an outcome outside the allowed set. *)
